@@ -16,7 +16,7 @@
 (***************************************************************************)
 EXTENDS Integers, Sequences, TLC
 CONSTANTS Convs,      \* money converters, subset of {"c1","c2","c3"}
-          Gens,       \* generic converter callables, subset of {"f1","f2","f3"}
+          Gens,       \* generic converter callables, subset of {"f1","f2","f3","f4"}
           MaxDepth, MaxSteps
 VARIABLES stack,      \* Money's converter stack (registration order)
           withs,      \* entered and not yet left with-blocks, innermost last
@@ -31,10 +31,12 @@ VARIABLES stack,      \* Money's converter stack (registration order)
 vars == <<stack, withs, gen, probe, gprobe, out, marks, base, disc>>
 hist == <<marks, base, disc>>
 
-RateOf(c) == CASE c = "c1" -> 2 [] c = "c2" -> 4 [] c = "c3" -> 5
+\* c4 holds no rate for the probed pair: while it is the most recent one the conversion fails (0), whatever
+\* older converters know
+RateOf(c) == CASE c = "c1" -> 2 [] c = "c2" -> 4 [] c = "c3" -> 5 [] c = "c4" -> 0
 \* generic callables: f1 converts g1->g2 by 2; f2 declines everything (returns None);
-\* f3 converts g1->g2 by 3
-GenFactor(f) == CASE f = "f1" -> 2 [] f = "f2" -> 0 [] f = "f3" -> 3
+\* f3 converts g1->g2 by 3, f4 by 5
+GenFactor(f) == CASE f = "f1" -> 2 [] f = "f2" -> 0 [] f = "f3" -> 3 [] f = "f4" -> 5
 ProbeOf(s) == IF s = <<>> THEN 0 ELSE RateOf(s[Len(s)])
 RECURSIVE GProbeOf(_)
 GProbeOf(g) == IF g = <<>> THEN 0
